@@ -3,6 +3,10 @@ package main
 import "time"
 
 var configs = map[string]checkCfg{
+	"C08": {QuickBudget: 150 * time.Second, ThoroughBudge: 20 * time.Minute,
+		Rule: "states = generator states of the RFC 8259 pushdown generator plus documents produced (structure axis <= T tokens / depth 4; lexical menu x structures x 7 layouts; all whitespace choices per gap of small documents; nestings to depth 4096); transitions = generator edges plus (document, limit) executions: every cut after the opening bracket and three whole-file limits; non-trivial = (document, cut) pairs executed in truncated mode (distinct by construction)"},
+	"C09": {QuickBudget: 150 * time.Second, ThoroughBudge: 20 * time.Minute,
+		Rule: "states = distinct byte strings enumerated (every string over the 15-symbol JSON alphabet starting with [ or { up to the length bound, every string <=4 with any first symbol and 3 leading-whitespace variants, every single-token mutant of every generated valid document) plus generator states; transitions = (string, mode) executions (limit 0, limit len, limit len+1) plus generator edges; non-trivial = strings the reference does not classify Complete (malformed or cut)"},
 	"C07": {QuickBudget: 150 * time.Second, ThoroughBudge: 15 * time.Minute,
 		Rule: "states = distinct byte strings enumerated (all strings <=2 bytes; all strings over the 21-symbol class alphabet up to the length bound; every position x 256 values of every text witness and its 5 BOM variants; every witness prefix); transitions = (string, limit) pairs executed; non-trivial = pairs whose examined header contains a binary data byte or starts with a BOM (pairs are distinct by construction)"},
 }
